@@ -32,18 +32,23 @@ package rtsp
 //@   modifies
 // writers: out(w) is the ghost sequence of bytes accepted by w; wsout(c) counts the WebSocket messages sent on c
 //@ extern func (resp *fmtrtsp.Response) Write(w io.Writer) (err error)
+//@   ensures err != nil ==> ioErr(err)
 //@   requires resp != nil && w != nil
 //@   modifies out(w)
 //@   ensures len(out(w)) >= old(len(out(w)))
 //@ extern func (resp *fmtrtsp.Response) String() (s string)
 //@   modifies
+// an error of the connection itself (as opposed to a refusal the session decides on): what Write / Flush report
+//@ spec func ioErr(e error) bool = uninterpreted
 //@ extern func (c *buffered.Conn) Flush() (n int, err error)
 //@   requires c != nil
 //@   modifies ghostInt(c, "flushed"), ghostInt(c, "flushes")
+//@   ensures err != nil ==> ioErr(err)
 //@   ensures err == nil ==> ghostInt(c, "flushed") == len(out(c))
 //@   ensures ghostInt(c, "flushes") == old(ghostInt(c, "flushes")) + 1
 //@ extern func (c websocket.Conn) Write(p []byte) (n int, err error)
 //@   modifies ghostInt(c, "wsmessages"), out(c)
+//@   ensures err != nil ==> ioErr(err)
 //@   ensures ghostInt(c, "wsmessages") == old(ghostInt(c, "wsmessages")) + 1
 //@ extern func (l *xlog.Logger) Errorf(format string, args ...interface{}) ()
 //@   modifies
@@ -64,6 +69,7 @@ package rtsp
 //@   assert[call:Unlock] s.wsconn == nil && err == nil ==> ghostInt(s.conn, "flushed") == len(out(s.conn))
 //@   local err error
 //@   ensures !held(&s.lockW)
+//@   ensures rerr != nil ==> ioErr(rerr)
 //@   ensures s.wsconn != nil ==> ghostInt(s.wsconn, "wsmessages") == old(ghostInt(s.wsconn, "wsmessages")) + 1
 //@   ensures s.wsconn != nil ==> ghostInt(s.conn, "flushes") == old(ghostInt(s.conn, "flushes"))
 //@   ensures s.wsconn == nil ==> ghostInt(s.wsconn, "wsmessages") == old(ghostInt(s.wsconn, "wsmessages")) && ghostInt(s.conn, "flushes") <= old(ghostInt(s.conn, "flushes")) + 1 && ghostInt(s.conn, "flushes") >= old(ghostInt(s.conn, "flushes")) && (rerr == nil ==> ghostInt(s.conn, "flushes") == old(ghostInt(s.conn, "flushes")) + 1)
@@ -127,7 +133,7 @@ package rtsp
 //@ spec func permits(u *auth.User, path string, right auth.AccessRight) bool = uninterpreted
 // RFC 2326 A.1 state machine as the statement gives it
 //@ spec func legalRFC(status int, m string) bool = m == MethodOptions || m == MethodTeardown || (status == statusInit && (m == MethodDescribe || m == MethodAnnounce || m == MethodSetup)) || (status == statusReady && (m == MethodSetup || m == MethodPlay || m == MethodRecord)) || (status == statusPlaying && m == MethodPlay) || (status == statusRecording && m == MethodRecord)
-//@ spec func sessOK(s *Session) bool = s != nil && !held(&s.lockW) && (s.wsconn == nil ==> s.conn != nil) && statusInit <= s.status && s.status <= statusRecording && 0 <= ghostInt(s.conn, "flushes") && ghostInt(s.conn, "flushes") < 1<<40 && 0 <= ghostInt(s.wsconn, "wsmessages") && ghostInt(s.wsconn, "wsmessages") < 1<<40
+//@ spec func sessOK(s *Session) bool = s != nil && !held(&s.lockW) && s.conn != nil && statusInit <= s.status && s.status <= statusRecording && 0 <= ghostInt(s.conn, "flushes") && ghostInt(s.conn, "flushes") < 1<<40 && 0 <= ghostInt(s.wsconn, "wsmessages") && ghostInt(s.wsconn, "wsmessages") < 1<<40
 
 //@ extern func (u *auth.User) ValidatePermission(path string, right auth.AccessRight) (ok bool)
 //@   modifies
@@ -139,10 +145,19 @@ package rtsp
 //@ extern func media.GetOrCreate(path string) (st *media.Stream)
 //@   modifies
 
+// "authentication is disabled for this session": RTSP authentication is off AND the session is not a WebSocket one that
+// the HTTP front authenticated - for those (ws-rtsp) the user comes from the token and HTTP checked only the PULL right of
+// the WebSocket path, so every right the session exercises (publishing under an announced path!) is still checked here
+//@ import "github.com/cnotch/ipchub/config"
+//@ spec func httpAuthOn() bool = uninterpreted
+//@ extern func config.Auth() (b bool)
+//@   modifies
+//@   ensures b == httpAuthOn()
+//@ spec func authOff(s *Session) bool = s.authMode == auth.NoneAuth && !(s.wsconn != nil && (s.user != nil || httpAuthOn()))
 //@ func (s *Session) checkPermission(right auth.AccessRight) (ok bool)
 //@   requires s != nil
 //@   modifies
-//@   ensures ok == (s.authMode == auth.NoneAuth || (s.user != nil && permits(s.user, s.path, right)))
+//@   ensures ok == (authOff(s) || (s.user != nil && permits(s.user, s.path, right)))
 
 // authentication: the user whose password / digest response is checked, and who is returned, is the entry the user table
 // holds under the request's user name NOW (looked up during this call), never one remembered from an earlier request
@@ -182,32 +197,69 @@ package rtsp
 //@   modifies s.closed, misc(s), s.status
 //@ func (s *Session) asTCPPusher() ()
 //@   trusted
-//@   requires s != nil && (s.authMode == auth.NoneAuth || (s.user != nil && permits(s.user, s.path, auth.PushRight)))
+//@   requires s != nil && (authOff(s) || (s.user != nil && permits(s.user, s.path, auth.PushRight)))
 //@   modifies s.stream, s.logger, misc(s)
+//@ import "net"
+//@ import "github.com/cnotch/ipchub/network"
+//@ extern func xlog.F(key string, value interface{}) (f xlog.Field)
+//@   modifies
+//@ extern func xlog.Fields(fields ...xlog.Field) (o xlog.Option)
+//@   modifies
+//@ extern func (l *xlog.Logger) With(opts ...xlog.Option) (r *xlog.Logger)
+//@   modifies
+//@ extern func (s *media.Stream) StartConsume(consumer media.Consumer, packetType media.PacketType, extra string) (cid media.CID)
+//@   requires s != nil
+//@   modifies ghostAll("misc")
+//@ extern func (s *media.Stream) Multicastable() (m media.Multicastable)
+//@   requires s != nil
+//@   modifies
+//@ extern func (m media.Multicastable) AddMember(c io.Closer) ()
+//@   modifies ghostAll("misc")
+//@ extern func (c *buffered.Conn) RemoteAddr() (a net.Addr)
+//@   requires c != nil
+//@   modifies
+//@ extern func network.GetIP(addr net.Addr) (ip string)
+//@   modifies
+//@ func (c *udpConsumer) prepareUDP(destIP string, destPorts [rtpChannelCount]int) (err error)
+//@   trusted
+//@   requires c != nil
+//@   modifies c.udpConn, c.destAddr[:], ghostAll("misc")
 //@ func (s *Session) asTCPConsumer(stream *media.Stream, resp *Response) (err error)
-//@   trusted
-//@   requires s != nil && stream != nil && resp != nil && !held(&s.lockW) && (s.authMode == auth.NoneAuth || (s.user != nil && permits(s.user, s.path, auth.PullRight)))
-//@   modifies s.consumer, s.logger, misc(s), held(&s.lockW), out(s.conn), ghostInt(s.conn, "flushed"), ghostInt(s.conn, "flushes"), out(s.wsconn), ghostInt(s.wsconn, "wsmessages")
+//@   requires sessOK(s) && stream != nil && resp != nil && (authOff(s) || (s.user != nil && permits(s.user, s.path, auth.PullRight)))
+//@   modifies s.consumer, s.logger, s.timeout, misc(s), ghostAll("misc"), held(&s.lockW), out(s.conn), ghostInt(s.conn, "flushed"), ghostInt(s.conn, "flushes"), out(s.wsconn), ghostInt(s.wsconn, "wsmessages")
 //@   ensures !held(&s.lockW) && (err == nil ==> sent(s) == old(sent(s)) + 1) && sent(s) <= old(sent(s)) + 1 && sent(s) >= old(sent(s))
+// a refusal (the role function changed the status code) attaches nothing and is not an error of the session: the only
+// error it can end with is the connection's own (the refusal could not be written), so the connection stays usable
+//@   ensures resp.StatusCode != old(resp.StatusCode) ==> s.consumer == old(s.consumer)
+//@   ensures resp.StatusCode != old(resp.StatusCode) ==> err == nil || ioErr(err)
+//@   ensures old(resp.StatusCode) == StatusOK && resp.StatusCode == StatusOK && err == nil ==> s.consumer != nil
 //@ func (s *Session) asUDPConsumer(stream *media.Stream, resp *Response) (err error)
-//@   trusted
-//@   requires s != nil && stream != nil && resp != nil && !held(&s.lockW) && (s.authMode == auth.NoneAuth || (s.user != nil && permits(s.user, s.path, auth.PullRight)))
-//@   modifies s.consumer, s.logger, misc(s), held(&s.lockW), out(s.conn), ghostInt(s.conn, "flushed"), ghostInt(s.conn, "flushes"), out(s.wsconn), ghostInt(s.wsconn, "wsmessages")
+//@   requires sessOK(s) && stream != nil && resp != nil && (authOff(s) || (s.user != nil && permits(s.user, s.path, auth.PullRight))) && s.conn != nil
+//@   modifies resp.StatusCode, s.consumer, s.logger, s.timeout, misc(s), ghostAll("misc"), held(&s.lockW), out(s.conn), ghostInt(s.conn, "flushed"), ghostInt(s.conn, "flushes"), out(s.wsconn), ghostInt(s.wsconn, "wsmessages")
 //@   ensures !held(&s.lockW) && (err == nil ==> sent(s) == old(sent(s)) + 1) && sent(s) <= old(sent(s)) + 1 && sent(s) >= old(sent(s))
+// a refusal (the role function changed the status code) attaches nothing and is not an error of the session: the only
+// error it can end with is the connection's own (the refusal could not be written), so the connection stays usable
+//@   ensures resp.StatusCode != old(resp.StatusCode) ==> s.consumer == old(s.consumer)
+//@   ensures resp.StatusCode != old(resp.StatusCode) ==> err == nil || ioErr(err)
+//@   ensures old(resp.StatusCode) == StatusOK && resp.StatusCode == StatusOK && err == nil ==> s.consumer != nil
 //@ func (s *Session) asMulticastConsumer(stream *media.Stream, resp *Response) (err error)
-//@   trusted
-//@   requires s != nil && stream != nil && resp != nil && !held(&s.lockW) && (s.authMode == auth.NoneAuth || (s.user != nil && permits(s.user, s.path, auth.PullRight)))
-//@   modifies s.consumer, s.logger, misc(s), held(&s.lockW), out(s.conn), ghostInt(s.conn, "flushed"), ghostInt(s.conn, "flushes"), out(s.wsconn), ghostInt(s.wsconn, "wsmessages")
+//@   requires sessOK(s) && stream != nil && resp != nil && (authOff(s) || (s.user != nil && permits(s.user, s.path, auth.PullRight)))
+//@   modifies resp.StatusCode, s.consumer, s.logger, s.timeout, misc(s), ghostAll("misc"), held(&s.lockW), out(s.conn), ghostInt(s.conn, "flushed"), ghostInt(s.conn, "flushes"), out(s.wsconn), ghostInt(s.wsconn, "wsmessages")
 //@   ensures !held(&s.lockW) && (err == nil ==> sent(s) == old(sent(s)) + 1) && sent(s) <= old(sent(s)) + 1 && sent(s) >= old(sent(s))
+// a refusal (the role function changed the status code) attaches nothing and is not an error of the session: the only
+// error it can end with is the connection's own (the refusal could not be written), so the connection stays usable
+//@   ensures resp.StatusCode != old(resp.StatusCode) ==> s.consumer == old(s.consumer)
+//@   ensures resp.StatusCode != old(resp.StatusCode) ==> err == nil || ioErr(err)
+//@   ensures old(resp.StatusCode) == StatusOK && resp.StatusCode == StatusOK && err == nil ==> s.consumer != nil
 
 // RECORD: only a session set up for recording over TCP, with push rights, starts publishing; otherwise 455 / 403, no change
 //@ func (s *Session) onRecord(resp *Response, req *Request) ()
 //@   requires sessOK(s) && resp != nil && req != nil
 //@   modifies resp.StatusCode, s.status, s.stream, s.logger, misc(s)
 //@   ensures old(s.status) != statusRecording && (s.mode != RecordSession || s.transport.Type != RTPTCPUnicast) ==> resp.StatusCode == StatusMethodNotValidInThisState && s.status == old(s.status) && s.stream == old(s.stream)
-//@   ensures s.status == statusRecording && old(s.status) != statusRecording ==> s.mode == RecordSession && s.transport.Type == RTPTCPUnicast && (s.authMode == auth.NoneAuth || (s.user != nil && permits(s.user, s.path, auth.PushRight)))
+//@   ensures s.status == statusRecording && old(s.status) != statusRecording ==> s.mode == RecordSession && s.transport.Type == RTPTCPUnicast && (authOff(s) || (s.user != nil && permits(s.user, s.path, auth.PushRight)))
 //@   ensures s.status == old(s.status) || s.status == statusRecording
-//@   ensures old(s.status) != statusRecording && s.mode == RecordSession && s.transport.Type == RTPTCPUnicast && !(s.authMode == auth.NoneAuth || (s.user != nil && permits(s.user, s.path, auth.PushRight))) ==> resp.StatusCode == StatusForbidden && s.status == old(s.status) && s.stream == old(s.stream)
+//@   ensures old(s.status) != statusRecording && s.mode == RecordSession && s.transport.Type == RTPTCPUnicast && !(authOff(s) || (s.user != nil && permits(s.user, s.path, auth.PushRight))) ==> resp.StatusCode == StatusForbidden && s.status == old(s.status) && s.stream == old(s.stream)
 
 // PLAY: always answered exactly once; media is attached only for a play session with a transport and pull rights
 //@ func (s *Session) onPlay(resp *Response, req *Request) (err error)
@@ -218,6 +270,10 @@ package rtsp
 //@   ensures sent(s) <= old(sent(s)) + 1
 //@   ensures s.status == old(s.status) || (s.status == statusPlaying && s.mode == PlaySession && s.transport.Type != RTPUnknownTrans)
 //@   ensures old(s.status) != statusPlaying && (s.mode != PlaySession || s.transport.Type == RTPUnknownTrans) ==> s.status == old(s.status) && s.consumer == old(s.consumer)
+// a PLAY that is refused for whatever reason (455, 404, 403, 461, 500) changes nothing - the session does not become
+// Playing - and is not an error of the session (the connection stays usable)
+//@   ensures old(resp.StatusCode) == StatusOK && resp.StatusCode != StatusOK ==> s.status == old(s.status) && s.consumer == old(s.consumer)
+//@   ensures old(resp.StatusCode) == StatusOK && resp.StatusCode != StatusOK ==> err == nil || ioErr(err)
 
 //@ extern func (e error) Error() (s string)
 //@   modifies
@@ -266,8 +322,8 @@ package rtsp
 //@   modifies
 //@ extern func (m media.Multicastable) TTL() (r int)
 //@   modifies
-//@ spec func pullOK(s *Session) bool = s.authMode == auth.NoneAuth || (s.user != nil && permits(s.user, s.path, auth.PullRight))
-//@ spec func pushOK(s *Session) bool = s.authMode == auth.NoneAuth || (s.user != nil && permits(s.user, s.path, auth.PushRight))
+//@ spec func pullOK(s *Session) bool = authOff(s) || (s.user != nil && permits(s.user, s.path, auth.PullRight))
+//@ spec func pushOK(s *Session) bool = authOff(s) || (s.user != nil && permits(s.user, s.path, auth.PushRight))
 
 // DESCRIBE: the session becomes a play session only when the stream exists, its SDP parses and the user may pull the
 // requested path; any refusal (404 / 403) leaves the mode as it was; the state never changes here
@@ -503,7 +559,6 @@ package rtsp
 //@ import "time"
 //@ import "runtime/debug"
 //@ import "github.com/cnotch/ipchub/stats"
-//@ import "github.com/cnotch/ipchub/config"
 //@ global stats.RtspConns readonly
 //@ extern func (c stats.Conns) Add() (n int64)
 //@   modifies ghostInt(c, "active")
@@ -544,6 +599,25 @@ package rtsp
 //@ extern func (l *xlog.Logger) Error(msg string, fields ...xlog.Field) ()
 //@   modifies ghostInt(l, "problems")
 //@   ensures ghostInt(l, "problems") == old(ghostInt(l, "problems")) + 1
+// the three handlers the play loop reaches through receive: they deliver / answer, and leave everything the loop's
+// cleanup depends on alone - the closed flag, the connection, the stream, the logger, the URL (frame). This is what the
+// assume[after:receive] clause of playStream takes for granted.
+//@ extern func (s *media.Stream) WriteRtpPacket(pack *RTPPack) (err error)
+//@   requires s != nil
+//@   modifies ghostAll("misc")
+//@ extern func (h fmtrtsp.Header) Del(key string) ()
+//@   modifies misc(h)
+//@ func (c *PullClient) onPack(p *RTPPack) (err error)
+//@   requires c != nil && c.stream != nil
+//@   modifies ghostAll("misc")
+//@ func (c *PullClient) onRequest(r *Request) (err error)
+//@   requires c != nil && r != nil && r.Header != nil && c.conn != nil && !held(&c.lockW)
+//@   modifies ghostAll("misc"), held(&c.lockW), out(c.conn), ghostInt(c.conn, "flushed"), ghostInt(c.conn, "flushes")
+//@   ensures !held(&c.lockW)
+//@ func (c *PullClient) onResponse(resp *Response) (err error)
+//@   requires c != nil
+//@   modifies
+//@   ensures err == nil
 //@ func (c *PullClient) playStream() ()
 //@   recovers
 //@   requires c != nil && c.stream != nil && c.conn != nil && c.logger != nil && c.url != nil && !c.closed && !held(&c.lockW) && stats.RtspConns != nil
